@@ -57,11 +57,16 @@ class NetworkxGraph(AbstractGraph):
         """Constructs a graph from all modules and their imports."""
         self._add_all_modules_as_nodes()
 
+        # with a level limit node names are truncated; an import one end of which is not part of the architecture
+        # (e.g. an excluded file) must not turn into an import of the ancestor its name is truncated to
+        known_nodes = self._nodes_without_level_limit()
+
         for imp in self._imports:
             importer = imp.importer()
             importee = imp.importee()
 
-            self._create_edge(importer, importee)
+            if importer in known_nodes and importee in known_nodes:
+                self._create_edge(importer, importee)
 
             self._add_edges_within_module_hierarchy(
                 imp.importer_parent_modules(),
@@ -74,6 +79,15 @@ class NetworkxGraph(AbstractGraph):
                 all_importee_modules[:-1], all_importee_modules[1:]
             ):
                 self._create_edge(parent, child, inherits=True)
+
+    def _nodes_without_level_limit(self) -> set[Node]:
+        nodes = set()
+        for module in self._all_modules:
+            nodes.add(module)
+            nodes.update(get_parent_modules(module))
+        for imp in self._imports:
+            nodes.update(imp.importer_parent_modules())
+        return nodes
 
     def _add_all_modules_as_nodes(self) -> None:
         for module in self._all_modules:
